@@ -270,6 +270,22 @@ func c09CloseOnce(e *Env, q string) {
 	}) {
 		under = c.(ssa.Instruction)
 	}
+	if cas == nil && under != nil {
+		// the same test-and-set spelled Swap(true): the previous value false means "this call closes"
+		for _, c := range core.Calls(f, func(n string, _ ssa.CallInstruction) bool { return strings.HasSuffix(n, "atomic.Bool.Swap") }) {
+			sw := c.(*ssa.Call)
+			if nv, isK := core.ConstBool(core.Arg(sw, 1)); isK && nv {
+				_, g := core.GuardedBy(under, func(cond ssa.Value) core.CondMatch {
+					if cond == ssa.Value(sw) {
+						return core.CondMatch{Match: true, Branch: false}
+					}
+					return core.CondMatch{}
+				})
+				e.R.Check(g, rule, q+":close-once", e.fpos(f), "the underlying Close is reachable only when Swap(true) returned false (this call set the flag)", "the underlying Close can run more than once (or concurrently)")
+				return
+			}
+		}
+	}
 	ok := cas != nil && under != nil
 	if ok {
 		oldV, _ := core.ConstBool(core.Arg(cas, 1))
